@@ -122,6 +122,8 @@ type wrappedSink struct {
 	lastError             error
 	lastProcessed         int
 	recursionDepth        int
+	// rejectedInRun is set when an entity was handed to the failing entity handlers in the current run
+	rejectedInRun bool
 }
 
 // verifyErrorHandlers checks that the error handlers are valid, and also
@@ -306,6 +308,7 @@ func (w *wrappedSink) processEntities(runner *Runner, entities []*server.Entity)
 	if err != nil {
 		// if this was a single entity, and it failed, run handles
 		if len(entities) <= 1 {
+			w.rejectedInRun = true
 			for _, eh := range w.failingEntityHandlers {
 				for _, entity := range entities {
 					err2 := eh.handleFailingEntity(runner, entity, w.jobId)
@@ -344,8 +347,10 @@ func (w *wrappedSink) processEntities(runner *Runner, entities []*server.Entity)
 			return leftErr
 		}
 	} else {
-		// unset error if this was an unsplit batch without failure
-		if w.recursionDepth == 0 {
+		// unset error if this was an unsplit batch without failure. The error of an entity that was
+		// rejected on its own earlier in this run (a single entity batch is never split) is part of
+		// the run's outcome and stays
+		if w.recursionDepth == 0 && !w.rejectedInRun {
 			w.lastError = nil
 		}
 	}
@@ -362,6 +367,7 @@ func (w *wrappedSink) endFullSync(ctx context.Context, runner *Runner) error {
 
 func (w *wrappedSink) reset() {
 	w.recursionDepth = 0
+	w.rejectedInRun = false
 	for _, eh := range w.failingEntityHandlers {
 		eh.reset()
 	}
